@@ -15,7 +15,7 @@
     * `label_after_entry_removal`, `addr_shift`, `opcode_index_stable` — the whole-program
       interactions the property names (removing the `entry` line shifts every later address; opcode
       numbers depend on the sorted set of opcodes of the whole section);
-    * `mov_matcher_effect` — every source form (22 `matchLine` alternatives, blocking ones included):
+    * `mov_matcher_effect` — every source form (24 `matchLine` alternatives, blocking ones included):
       one `Isa.exec` of the assembled word = the reference effect of the *source* line;
     * `step_correct` — lock step for one tick over an abstract `Layout` (address shift δ);
       `layout_of_pipelines` — both pipelines produce such a layout (δ = 0 / δ = `entryDelay`);
@@ -332,5 +332,28 @@ example : (match assemble demoLineMode true with | .ok bm => bm.cps.map (·.arch
 example : matchLine none { op := "mov", args := [.reg 1, .inp 0], iomode := some .sync } = some ("i2rw", [.reg 1, .inp 0]) := by decide
 example : matchLine (some .sync) { op := "mov", args := [.out 0, .reg 1], iomode := some .async } = some ("r2o", [.reg 1, .out 0]) := by decide
 example : matchLine none { op := "mov", args := [.out 0, .reg 1] } = none := by decide
+
+/-- the integer instantiation of the library's arithmetic fragments (`multop` = `mult`, `divop` = `div`):
+    200·3 = 600 ≡ 88 (mod 2^8), 88 / 3 = 29; a division by zero has no meaning in the reference -/
+def demoArith : Source :=
+  { rsize := some 8, iomode := some .async,
+    sections := [{ name := "prog", lines :=
+      [ { op := "entry", args := [.sym "go"] },
+        { labels := ["go"], op := "rset", args := [.reg 0, .num 200] },
+        { op := "rset", args := [.reg 1, .num 3] },
+        { op := "mult", args := [.reg 0, .reg 1] },
+        { op := "div", args := [.reg 0, .reg 1] },
+        { op := "mov", args := [.out 0, .reg 0] },
+        { op := "clr", args := [.reg 1] },
+        { op := "div", args := [.reg 0, .reg 1] } ] }],
+    cps := [{ name := "cpu", romcode := "prog" }] }
+
+def arithSec : Section := demoArith.sections.headD default
+def arithCp : CP := match assemble demoArith true with | .ok bm => bm.cps.headD default | .error _ => default
+example : arithCp.arch.ops = ["clr", "div", "mult", "r2o", "rset"] := by decide
+example : ((refRun (SecCtx.of demoArith arithSec) demoEnv 6).map fun r => (r.regs 0, r.regs 1, r.outputs 0)) = some (29, 0, 29) := by decide
+example : ((isaRun arithCp.arch arithCp.prog demoEnv 6).map fun vm => (vm.regs, vm.outputs)) = some ([29, 0], [29]) := by decide
+example : (refRun (SecCtx.of demoArith arithSec) demoEnv 7).isNone = true := by decide
+example : (isaRun arithCp.arch arithCp.prog demoEnv 7).isNone = true := by decide
 
 end BMV.Props.C05
